@@ -194,9 +194,8 @@ theorem strip_spec (hlen : HashLen H) (node : Nat) : ∀ (last : Nat) (L : List 
       obtain ⟨L', a, b, c, d, e, f⟩ := ih (node / 2) (by omega) (last / 2) (pairUp H L)
         (by rw [pairUp_length, hL]; omega) (by omega) (pairUp_len32 H hlen L h32)
       refine ⟨L', a, b, c, by rw [d, mth_pairUp], ?_, f⟩
-      rw [e, ← pairUp_take_even H L (node + 1) (by omega) (by omega)] 
-      · rw [mth_pairUp]
-      
+      have hh : node / 2 + 1 = (node + 1) / 2 := by omega
+      rw [e, hh, ← pairUp_take_even H L (node + 1) (by omega) (by omega), mth_pairUp]
     · rw [stripRight_even node last hodd]
       exact ⟨L, hL, hn, by omega, rfl, rfl, h32⟩
 
@@ -288,7 +287,7 @@ theorem verifyConsistency_sound (hlen : HashLen H) (D1 D2 : List (List UInt8)) (
       rename_i hroots
       by_cases h1 : D1 = []
       · subst h1; simp
-      · have h2 : D2 ≠ [] := by intro e; subst e; simp at hmn; exact h1 (List.eq_nil_of_length_eq_zero hmn)
+      · have h2 : D2 ≠ [] := by intro e; subst e; simp at hmn; exact h1 hmn
         rcases mth_data_inj H hlen D1 D2 h1 h2 hroots with rfl | hc
         · simp
         · exact Or.inr hc
@@ -320,7 +319,7 @@ theorem verifyConsistency_sound (hlen : HashLen H) (D1 D2 : List (List UInt8)) (
             have hp0 : p0.length = 32 := hp32 p0 (by simp)
             have hr1 : (mth H (D1.map (hashLeaf H))).length = 32 := by
               apply mth_length H hlen
-              · intro e'; have := congrArg List.length e'; simp at this; omega
+              · intro e'; have := congrArg List.length e'; rw [List.length_map, List.length_nil] at this; omega
               · intro y hy; obtain ⟨d', _, rfl⟩ := List.mem_map.mp hy; exact hlen _
             by_cases hn0 : node = 0
             · subst hn0
@@ -365,7 +364,7 @@ theorem verifyConsistency_sound (hlen : HashLen H) (D1 D2 : List (List UInt8)) (
                         rw [List.take_succ_eq_append_getElem (by omega)]
                         congr 2
                         rw [List.getElem?_eq_getElem (by omega)] at h1
-                        exact (Option.some.inj h1)
+                        exact (Option.some.inj h1).symm
                       · exact Or.inr h
         rcases hgoal with hg | hc
         · have hlen1 : (D1.map (hashLeaf H)).length = D1.length := by simp
@@ -378,5 +377,400 @@ theorem verifyConsistency_sound (hlen : HashLen H) (D1 D2 : List (List UInt8)) (
             exact map_hashLeaf_inj H _ _ heq
           · exact Or.inr hc
         · exact Or.inr hc
+
+
+/-! ### The RFC 6962 consistency proof, level by level -/
+
+theorem subproof_step (m : Nat) (l : List Hash) (b : Bool) (h : m < l.length ∧ 2 ≤ l.length) :
+    subproof H m l b =
+      if m ≤ splitPoint l.length then subproof H m (l.take (splitPoint l.length)) b ++ [mth H (l.drop (splitPoint l.length))]
+      else subproof H (m - splitPoint l.length) (l.drop (splitPoint l.length)) false ++ [mth H (l.take (splitPoint l.length))] := by
+  rw [subproof]; simp [h]
+
+theorem subproof_end (m : Nat) (l : List Hash) (b : Bool) (h : ¬ (m < l.length ∧ 2 ≤ l.length)) :
+    subproof H m l b = if b then [] else [mth H l] := by
+  rw [subproof]; simp [h]
+
+/-- Even old size: the proof is the proof one level up. -/
+theorem subproof_even (n : Nat) : ∀ (D : List Hash) (m : Nat) (b : Bool), D.length = n → m % 2 = 0 → 2 ≤ m → m ≤ n →
+    subproof H m D b = subproof H (m / 2) (pairUp H D) b := by
+  induction n using Nat.strongRecOn with
+  | _ n ih =>
+    intro D m b hD hm h2 hmn
+    have hP : (pairUp H D).length = (n + 1) / 2 := by rw [pairUp_length, hD]
+    by_cases hlt : m < n
+    · have hn3 : 3 ≤ n := by omega
+      obtain ⟨hk2, hkh⟩ := splitPoint_half n hn3
+      obtain ⟨_, hk1, hk3⟩ := splitPoint_spec n (by omega)
+      have hkpos := splitPoint_pos n
+      rw [subproof_step H m D b (by omega), subproof_step H (m / 2) (pairUp H D) b (by omega), hP, hkh, hD]
+      generalize hk : splitPoint n = k at *
+      rw [← pairUp_take_even H D k hk2 (by omega), ← pairUp_drop_even H D k hk2 (by omega), mth_pairUp, mth_pairUp]
+      by_cases hmk : m ≤ k
+      · have : m / 2 ≤ k / 2 := by omega
+        simp only [hmk, this, ↓reduceIte]
+        rw [ih k (by omega) (D.take k) m b (by simp; omega) hm h2 hmk]
+      · have : ¬ m / 2 ≤ k / 2 := by omega
+        simp only [hmk, this, ↓reduceIte]
+        have e : m / 2 - k / 2 = (m - k) / 2 := by omega
+        rw [e, ih (n - k) (by omega) (D.drop k) (m - k) false (by simp; omega) (by omega) (by omega) (by omega)]
+    · have : m = n := by omega
+      subst this
+      rw [subproof_end H m D b (by omega), subproof_end H (m / 2) (pairUp H D) b (by rw [hP]; omega), mth_pairUp]
+
+/-- Odd old size: the proof is the old tree's last leaf (unless it is the very first leaf and `b`) followed
+by that leaf's audit path. -/
+theorem subproof_odd (n : Nat) : ∀ (D : List Hash) (m : Nat) (b : Bool), D.length = n → m % 2 = 1 → m ≤ n →
+    (m = n → n = 1) →
+    subproof H m D b = (if b = true ∧ m = 1 then [] else (D[m - 1]?).toList) ++ path H (m - 1) D := by
+  induction n using Nat.strongRecOn with
+  | _ n ih =>
+    intro D m b hD hm hmn hend
+    by_cases hlt : m < n
+    · have h2 : 2 ≤ n := by omega
+      obtain ⟨hp2, hk1, hk3⟩ := splitPoint_spec n h2
+      have hkpos := splitPoint_pos n
+      rw [subproof_step H m D b (by omega), path_split H (m - 1) D (by omega), hD]
+      generalize hk : splitPoint n = k at *
+      by_cases hmk : m ≤ k
+      · have hlt' : m - 1 < k := by omega
+        simp only [hmk, hlt', ↓reduceIte]
+        have hmk1 : m = k → k = 1 := by
+          intro e; subst e
+          obtain ⟨j, hj⟩ := hp2
+          cases j with
+          | zero => simpa using hj
+          | succ j => rw [Nat.pow_succ] at hj; omega
+        rw [ih k (by omega) (D.take k) m b (by simp; omega) hm hmk hmk1, List.getElem?_take_of_lt (by omega)]
+        simp
+      · have hge : ¬ m - 1 < k := by omega
+        simp only [hmk, hge, ↓reduceIte]
+        have hkeven : k % 2 = 0 := by
+          obtain ⟨j, hj⟩ := hp2
+          cases j with
+          | zero => omega
+          | succ j => rw [Nat.pow_succ] at hj; omega
+        rw [ih (n - k) (by omega) (D.drop k) (m - k) false (by simp; omega) (by omega) (by omega) (by omega)]
+        have hm1 : ¬ (b = true ∧ m = 1) := by omega
+        simp only [hm1, Bool.false_eq_true, false_and, ↓reduceIte, List.getElem?_drop]
+        have e1 : k + (m - k - 1) = m - 1 := by omega
+        have e2 : m - k - 1 = m - 1 - k := by omega
+        rw [e1, e2]; simp
+    · have : m = n := by omega
+      have hn1 := hend this
+      subst this; subst hn1
+      match D, hD with
+      | [x], _ =>
+        rw [subproof_end H 1 [x] b (by simp), path_single]
+        cases b <;> simp [mth_single]
+
+/-! ### completeness of the verifier on the RFC proof -/
+
+theorem consTail_lpath (last : Nat) : ∀ (L : List Hash) (c : Hash), L.length = last + 1 → L[0]? = some c →
+    consTail H last c (lpath H L 0) = .ok (mth H L, []) := by
+  induction last using Nat.strongRecOn with
+  | _ last ih =>
+    intro L c hL hc
+    by_cases h0 : last = 0
+    · subst h0
+      match L, hL with
+      | [x], _ => simp at hc; subst hc; rw [lpath_small H _ _ (by simp), consTail_zero]; simp [mth_single]
+    · rw [lpath_step H L 0 (by omega)]
+      have hs : sib L 0 = [L[1]'(by omega)] := by
+        unfold sib; simp [List.getElem?_eq_getElem (show 1 < L.length by omega)]
+      have hce : L[0]'(by omega) = c := by rw [List.getElem?_eq_getElem (by omega)] at hc; exact Option.some.inj hc
+      rw [hs, List.singleton_append, consTail_pos H last c _ h0]
+      simp only [Nat.zero_div]
+      rw [← mth_pairUp]
+      apply ih (last / 2) (by omega) (pairUp H L) _ (by rw [pairUp_length, hL]; omega)
+      rw [pairUp_getElem_pair H L 0 (by omega)]; simp only [Nat.mul_zero]; rw [hce]
+
+/-- Walk and tail of the consistency verifier on the level-by-level path of node `node`. -/
+theorem consRun_lpath (last : Nat) : ∀ (L : List Hash) (node : Nat) (c oldH : Hash), L.length = last + 1 → node ≤ last →
+    L[node]? = some c →
+    ∃ newH' oldH' last' p1, consWalk H node last c oldH (lpath H L node) = .ok (newH', oldH', last', p1) ∧
+      consTail H last' newH' p1 = .ok (mth H L, []) ∧ oldH' = mth H (L.take node ++ [oldH]) := by
+  induction last using Nat.strongRecOn with
+  | _ last ih =>
+    intro L node c oldH hL hnode hc
+    by_cases h0 : node = 0
+    · subst h0
+      exact ⟨c, oldH, last, lpath H L 0, consWalk_zero H _ _ _ _, consTail_lpath H last L c hL hc, by simp [mth_single]⟩
+    · have hnL : node < L.length := by omega
+      have hce : L[node] = c := by rw [List.getElem?_eq_getElem hnL] at hc; exact Option.some.inj hc
+      have hL' : (pairUp H L).length = last / 2 + 1 := by rw [pairUp_length, hL]; omega
+      rw [lpath_step H L node (by omega), consWalk_pos H node last c oldH _ h0, ← mth_pairUp H L]
+      by_cases hodd : node % 2 = 1
+      · have hs : sib L node = [L[node - 1]'(by omega)] := by
+          unfold sib; simp [hodd, List.getElem?_eq_getElem (show node - 1 < L.length by omega)]
+        simp only [hodd, ↓reduceIte, hs, List.singleton_append]
+        have hp : (pairUp H L)[node / 2]? = some (hashChildren H (L[node - 1]'(by omega)) c) := by
+          rw [pairUp_getElem_pair H L (node / 2) (by omega)]; congr 2
+          · have e : 2 * (node / 2) = node - 1 := by omega
+            simp only [e]
+          · have e : 2 * (node / 2) + 1 = node := by omega
+            simp only [e]; exact hce
+        obtain ⟨a, b, c', d, h1, h2, h3⟩ := ih (last / 2) (by omega) (pairUp H L) (node / 2) _
+          (hashChildren H (L[node - 1]'(by omega)) oldH) hL' (by omega) hp
+        refine ⟨a, b, c', d, h1, h2, ?_⟩
+        rw [h3, ← mth_pairUp H (L.take node ++ [oldH])]
+        congr 1
+        have hsplit : L.take node = L.take (node - 1) ++ [L[node - 1]'(by omega)] := by
+          have : node = (node - 1) + 1 := by omega
+          conv => lhs; rw [this]
+          rw [List.take_succ_eq_append_getElem (by omega)]
+        rw [hsplit, Poly.Proofs.MerkleTree.pairUp_snoc_pair H _ _ _ (by simp; omega)]
+        rw [pairUp_take_even H L (node - 1) (by omega) (by omega)]
+        have : (node - 1) / 2 = node / 2 := by omega
+        rw [this]
+      · simp only [hodd, ↓reduceIte]
+        have hpromote : mth H (List.take (node / 2) (pairUp H L) ++ [oldH]) = mth H (L.take node ++ [oldH]) := by
+          rw [← mth_pairUp H (L.take node ++ [oldH]), pairUp_append_even H _ _ (by simp; omega)]
+          rw [pairUp_take_even H L node (by omega) (by omega)]
+          simp [pairUp]
+        by_cases hlt : node < last
+        · have hs : sib L node = [L[node + 1]'(by omega)] := by
+            unfold sib; simp [hodd, List.getElem?_eq_getElem (show node + 1 < L.length by omega)]
+          simp only [hlt, ↓reduceIte, hs, List.singleton_append]
+          have hp : (pairUp H L)[node / 2]? = some (hashChildren H c (L[node + 1]'(by omega))) := by
+            rw [pairUp_getElem_pair H L (node / 2) (by omega)]; congr 2
+            · have e : 2 * (node / 2) = node := by omega
+              simp only [e]; exact hce
+            · have e : 2 * (node / 2) + 1 = node + 1 := by omega
+              simp only [e]
+          obtain ⟨a, b, c', d, h1, h2, h3⟩ := ih (last / 2) (by omega) (pairUp H L) (node / 2) _ oldH hL' (by omega) hp
+          exact ⟨a, b, c', d, h1, h2, by rw [h3, hpromote]⟩
+        · have hs : sib L node = [] := by
+            unfold sib; simp [hodd, List.getElem?_eq_none (show L.length ≤ node + 1 by omega)]
+          simp only [hlt, ↓reduceIte, hs, List.nil_append]
+          have hp : (pairUp H L)[node / 2]? = some c := by
+            rw [pairUp_getElem_last H L (node / 2) (by omega)]; congr 1
+            have e : 2 * (node / 2) = node := by omega
+            simp only [e]; exact hce
+          obtain ⟨a, b, c', d, h1, h2, h3⟩ := ih (last / 2) (by omega) (pairUp H L) (node / 2) c oldH hL' (by omega) hp
+          exact ⟨a, b, c', d, h1, h2, by rw [h3, hpromote]⟩
+
+/-- The RFC proof `PROOF(m, D)` in the verifier's coordinates: after moving up over the levels where the
+old tree's last node is a right child, it is the node reached (unless it is the leftmost node of its
+level) followed by that node's level-by-level path. -/
+theorem subproof_levels (m : Nat) : ∀ (D : List Hash), 1 ≤ m → m < D.length →
+    ∃ L', L'.length = (stripRight (m - 1) (D.length - 1)).2 + 1 ∧
+      (stripRight (m - 1) (D.length - 1)).1 ≤ (stripRight (m - 1) (D.length - 1)).2 ∧
+      mth H L' = mth H D ∧ mth H (L'.take ((stripRight (m - 1) (D.length - 1)).1 + 1)) = mth H (D.take m) ∧
+      subproof H m D true =
+        (if (stripRight (m - 1) (D.length - 1)).1 = 0 then [] else (L'[(stripRight (m - 1) (D.length - 1)).1]?).toList)
+          ++ lpath H L' (stripRight (m - 1) (D.length - 1)).1 := by
+  induction m using Nat.strongRecOn with
+  | _ m ih =>
+    intro D hm1 hmn
+    by_cases hev : m % 2 = 0
+    · have hodd : (m - 1) % 2 = 1 := by omega
+      rw [stripRight_odd _ _ hodd]
+      have hP : (pairUp H D).length = (D.length + 1) / 2 := pairUp_length H D
+      have e1 : (m - 1) / 2 = m / 2 - 1 := by omega
+      have e2 : (D.length - 1) / 2 = (pairUp H D).length - 1 := by rw [hP]; omega
+      rw [e1, e2]
+      obtain ⟨L', a, b, c, d, e⟩ := ih (m / 2) (by omega) (pairUp H D) (by omega) (by rw [hP]; omega)
+      refine ⟨L', a, b, by rw [c, mth_pairUp], ?_, ?_⟩
+      · rw [d, ← pairUp_take_even H D m hev (by omega), mth_pairUp]
+      · rw [subproof_even H D.length D m true rfl hev (by omega) (by omega), e]
+    · have hnodd : ¬ (m - 1) % 2 = 1 := by omega
+      rw [stripRight_even _ _ hnodd]
+      refine ⟨D, by simp only; omega, by simp only; omega, rfl, by simp only; rw [show m - 1 + 1 = m by omega], ?_⟩
+      simp only
+      rw [subproof_odd H D.length D m true rfl (by omega) (by omega) (by omega)]
+      rw [lpath_eq_path H D.length D (m - 1) rfl (by omega)]
+      by_cases h1 : m = 1
+      · subst h1; simp
+      · have : ¬ m - 1 = 0 := by omega
+        simp [h1, this]
+
+/-- The node's own verifier accepts the RFC 6962 consistency proof between any two sizes `1 ≤ m ≤ n`. -/
+theorem verifyConsistency_complete (D : List Hash) (m : Nat) (hm1 : 1 ≤ m) (hmn : m ≤ D.length) :
+    verifyConsistency H m D.length (mth H (D.take m)) (mth H D) (subproof H m D true) = .ok () := by
+  unfold verifyConsistency
+  have h1 : ¬ m > D.length := by omega
+  simp only [h1, ↓reduceIte]
+  by_cases hroots : mth H (D.take m) = mth H D
+  · simp [hroots]
+  · simp only [hroots, ↓reduceIte]
+    have h0 : ¬ m = 0 := by omega
+    simp only [h0, ↓reduceIte]
+    have hlt : m < D.length := by
+      rcases Nat.lt_or_ge m D.length with h | h
+      · exact h
+      · exfalso; apply hroots; rw [List.take_of_length_le h]
+    obtain ⟨L', a, b, c, d, e⟩ := subproof_levels H m D hm1 hlt
+    rw [e]
+    generalize stripRight (m - 1) (D.length - 1) = nl at a b d e ⊢
+    obtain ⟨node, last⟩ := nl
+    simp only at a b d e ⊢
+    by_cases hn0 : node = 0
+    · subst hn0
+      simp only [↓reduceIte, List.nil_append, ne_eq, not_true_eq_false]
+      -- the old tree is one perfect subtree: its root is the leftmost node of the level
+      have hlast : last ≠ 0 := by
+        intro e0; subst e0
+        apply hroots
+        rw [← d, ← c]
+        match L', a with
+        | [x], _ => simp
+      have hne := lpath_ne_nil H (last + 1) L' 0 a (by omega) (by omega)
+      have hr1 : L'[0]? = some (mth H (D.take m)) := by
+        rw [← d]
+        match L', a with
+        | x :: r, _ => simp [mth_single]
+      match hq : lpath H L' 0, hne with
+      | p0 :: rest0, _ =>
+        simp only
+        rw [consWalk_zero, ← hq]
+        simp only
+        rw [consTail_lpath H last L' _ a hr1]
+        simp [c]
+    · have hnl : node < L'.length := by omega
+      simp only [hn0, ↓reduceIte, List.getElem?_eq_getElem hnl, Option.toList_some, List.singleton_append, ne_eq,
+        not_false_eq_true]
+      obtain ⟨n', o', l', p1, h1', h2', h3'⟩ := consRun_lpath H last L' node (L'[node]) (L'[node]) a b
+        (List.getElem?_eq_getElem hnl)
+      rw [h1']
+      simp only
+      rw [h2']
+      simp only
+      have ho : o' = mth H (D.take m) := by
+        rw [h3', ← d, List.take_succ_eq_append_getElem hnl]
+      simp [c, ho]
+
+
+/-! ### the generator: `ConsistencyProof` reads the RFC proof out of the store -/
+
+/-- The part of `subproof` after the loop. -/
+def finish (st : HashStore) : List Hash × Nat × Nat × Bool → Except Err (List Hash)
+  | (hs, n', offset, b') =>
+    if b' = false then
+      match getSubTreePos n' with
+      | [p] => match getHash1 st (p + offset) with
+        | .error e => .error e
+        | .ok h => .ok (hs ++ [h]).reverse
+      | _ => .error .panic
+    else .ok hs.reverse
+
+theorem subproofGen_eq (st : HashStore) (m n : Nat) (b : Bool) :
+    subproofGen H st m n b = match consLoop H st (n + 1) m n 0 b with
+      | .error e => .error e
+      | .ok x => finish st x := by
+  unfold subproofGen
+  cases consLoop H st (n + 1) m n 0 b with
+  | error e => rfl
+  | ok x => obtain ⟨hs, n', off, b'⟩ := x; rfl
+
+theorem finish_cons (st : HashStore) (h : Hash) (r : List Hash) (x : Nat × Nat × Bool) (l : List Hash)
+    (hf : finish st (r, x) = .ok l) : finish st (h :: r, x) = .ok (l ++ [h]) := by
+  obtain ⟨n', off, b'⟩ := x
+  unfold finish at hf ⊢
+  cases b' with
+  | true => simp at hf ⊢; rw [← hf]
+  | false =>
+    simp only [↓reduceIte] at hf ⊢
+    split at hf
+    · rename_i p hp
+      split at hf
+      · simp at hf
+      · rename_i hh hg
+        simp only [Except.ok.injEq] at hf
+        simp only [List.cons_append, List.reverse_cons]
+        rw [← hf]
+    · simp at hf
+
+theorem getSubTreePos_pow2 (j : Nat) : getSubTreePos (2 ^ j) = [2 * 2 ^ j - 1] := by
+  unfold getSubTreePos
+  rw [getSubTreeSize_top (2 ^ j) (Nat.two_pow_pos j), topBit_pow2]
+  simp [getSubTreeSize, subTreeSizesLow, prefixSums]
+
+theorem consLoop_ok (st : HashStore) (fuel : Nat) : ∀ (S : List Hash) (m : Nat) (pre suf : List Hash) (b : Bool),
+    st.hashes = pre ++ postorder H S ++ suf → 1 ≤ m → m ≤ S.length → S.length < fuel →
+    (b = false → m < S.length ∨ IsPow2 S.length) →
+    ∃ x, consLoop H st fuel m S.length pre.length b = .ok x ∧ finish st x = .ok (subproof H m S b) := by
+  induction fuel with
+  | zero => intro S m pre suf b _ _ _ hf; omega
+  | succ fuel ih =>
+    intro S m pre suf b hst hm1 hmS hf hb
+    rw [consLoop]
+    by_cases hlt : m < S.length
+    · have h2 : 2 ≤ S.length := by omega
+      simp only [hlt, ↓reduceIte]
+      rw [splitK_eq _ h2, subproof_step H m S b ⟨hlt, h2⟩]
+      obtain ⟨hp2, hk1, hk2⟩ := splitPoint_spec S.length h2
+      have hkpos := splitPoint_pos S.length
+      obtain ⟨init, tail, e1, l1, e2⟩ := postorder_split H S h2
+      generalize hk : splitPoint S.length = k at *
+      by_cases hmk : m ≤ k
+      · simp only [hmk, ↓reduceIte]
+        have hbase : pre.length + k * 2 = (pre ++ postorder H (S.take k)).length + 1 := by
+          rw [e1]; simp [l1]; omega
+        have hcnt : S.length - k = (S.drop k).length := by simp
+        rw [hbase, hcnt, rangeRoot_ok H st (S.drop k) (pre ++ postorder H (S.take k)) (tail ++ suf)
+          (by intro e; have := congrArg List.length e; rw [List.length_drop, List.length_nil] at this; omega)
+          (by rw [hst, e2]; simp)]
+        simp only
+        have hlt' : (S.take k).length = k := by simp; omega
+        obtain ⟨x, hx, hfx⟩ := ih (S.take k) m pre (postorder H (S.drop k) ++ tail ++ suf) b
+          (by rw [hst, e2]; simp) hm1 (by omega) (by omega) (fun _ => Or.inr (by rw [hlt']; exact hp2))
+        rw [hlt'] at hx
+        rw [hx]
+        obtain ⟨r, y⟩ := x
+        exact ⟨_, rfl, finish_cons st _ r y _ hfx⟩
+      · simp only [hmk, ↓reduceIte]
+        have hpos : pre.length + (k * 2 - 1) = (pre ++ init).length + 1 := by simp [l1]; omega
+        rw [hpos, getHash1_at st (pre ++ init) (postorder H (S.drop k) ++ tail ++ suf) (mth H (S.take k))
+          (by rw [hst, e2, e1]; simp)]
+        simp only
+        have hoff : (pre ++ init).length + 1 = (pre ++ postorder H (S.take k)).length := by rw [e1]; simp; omega
+        have hld : (S.drop k).length = S.length - k := by simp
+        obtain ⟨x, hx, hfx⟩ := ih (S.drop k) (m - k) (pre ++ postorder H (S.take k)) (tail ++ suf) false
+          (by rw [hst, e2]; simp) (by omega) (by omega) (by omega) (fun _ => Or.inl (by omega))
+        rw [hld, ← hoff] at hx
+        rw [hx]
+        obtain ⟨r, y⟩ := x
+        exact ⟨_, rfl, finish_cons st _ r y _ hfx⟩
+    · have hmeq : m = S.length := by omega
+      simp only [hlt, ↓reduceIte]
+      refine ⟨_, rfl, ?_⟩
+      rw [subproof_end H m S b (by omega)]
+      unfold finish
+      cases b with
+      | true => simp
+      | false =>
+        simp only [↓reduceIte, Bool.false_eq_true]
+        obtain ⟨j, hj⟩ : IsPow2 S.length := by
+          rcases hb rfl with h | h
+          · omega
+          · exact h
+        have hSne : S ≠ [] := by intro e; rw [e] at hj; simp at hj; have := Nat.two_pow_pos j; omega
+        rw [hj, getSubTreePos_pow2]
+        simp only
+        have hpo : postorder H S = perfectPost H S := postorder_full H S hSne (by rw [hj, topBit_pow2])
+        obtain ⟨init, e1, l1⟩ := perfectPost_spec H j S hj
+        have hpos : 2 * 2 ^ j - 1 + pre.length = (pre ++ init).length + 1 := by
+          simp [l1]; have := Nat.two_pow_pos j; omega
+        rw [hpos, getHash1_at st (pre ++ init) suf (mth H S) (by rw [hst, hpo, e1]; simp)]
+        simp
+
+/-- `ConsistencyProof(m, n)` on the tree of `L` is the RFC 6962 consistency proof `PROOF(m, L[0:n])`. -/
+theorem consistencyProof_eq_proof (L : List Hash) (s : State) (st : HashStore) (m n : Nat)
+    (hinv : SInv H L s) (hst : s.store = some st) (hm1 : 1 ≤ m) (hmn : m ≤ n) (hn : n ≤ L.length) :
+    consistencyProof H s m n = .ok (some (proof H m (L.take n))) := by
+  obtain ⟨h1, _, h3⟩ := hinv
+  obtain ⟨rest, hrest⟩ := postorder_prefix H (L.take n) (L.drop n)
+  rw [List.take_append_drop] at hrest
+  have hlen : (L.take n).length = n := by simp; omega
+  obtain ⟨x, hx, hfx⟩ := consLoop_ok H st (n + 1) (L.take n) m [] rest true (by rw [h3 st hst, hrest]; simp)
+    hm1 (by omega) (by omega) (by simp)
+  rw [hlen] at hx
+  simp only [List.length_nil] at hx
+  unfold consistencyProof
+  have h' : ¬ (m > n ∨ s.tree.size < n) := by omega
+  simp only [hst, h', ↓reduceIte]
+  rw [subproofGen_eq, hx]
+  simp only [hfx, proof]
 
 end Poly.Proofs.MerkleCons
